@@ -635,11 +635,11 @@ def run_round_robin(case):
 # =========================================================================
 
 SUBCHECKS = [
-    SubCheck("ducb", (lambda: ducb_cases(False)), run_ducb, quick=300, thorough=4500, shards=3, cost=1.5,
+    SubCheck("ducb", (lambda: ducb_cases(False)), run_ducb, quick=300, thorough=4500, shards=3, cost=1.5, fuzz_runs=20000,
              rule="at least one selection after the 2*n_arms initial rounds"),
     SubCheck("ducb_generalized", (lambda: ducb_cases(True)), run_ducb_generalized, quick=300, thorough=4500,
              shards=3, cost=1.5, rule="a selection after the initial rounds or a protocol misuse"),
-    SubCheck("round_robin", rr_cases, run_round_robin, quick=300, thorough=4500, shards=1,
+    SubCheck("round_robin", rr_cases, run_round_robin, quick=300, thorough=4500, shards=1, fuzz_runs=12000,
              rule="more selections than tasks, or a protocol misuse"),
     SubCheck("generate_rollout", rollout_cases, run_rollout, quick=60, thorough=900, shards=1, cost=0.5,
              rule="first episode longer than one step or ended by truncation"),
